@@ -280,6 +280,24 @@ def scale_histories(pid, tier, seed):
         lines.append("and %d %d" % (big, 2)); nreg += 1
         lines.append("implies %d %d" % (nreg - 1, big))
         yield ("scale-huge-diagram", lines, {"kind": "scale", "family": "scale", "classes": {"scale:diagram>=2^17": 1}, "timeout": 120})
+    # (6) handle numbers beyond 2^20 (the size of the default table) in a 2^21-cell manager: back-to-back calls that differ in
+    #     one sign or one argument only (a key that packs three handles into one machine word confuses them)
+    if pid in ("C01", "C02", "C03", "C07", "C17"):
+        N = (1 << 20) + 5 + rng.randrange(20)
+        lines = ["cfg 21 14 12", "nvars 1", "const 1", "const 0"] + ["var %d" % v for v in range(1, N + 1)]
+        top = N + 1                                   # register of the last variable (node index N + 1 > 2^20)
+        nreg = N + 2
+        for (a, b, c) in ((2, 3, top), (2, top, 3), (top, 2, 3), (top - 1, top, 4), (3, top - 2, top)):
+            for (sa, sb, sc) in (("", "", ""), ("", "~", ""), ("", "", "~"), ("~", "", ""), ("", "~", "~")):
+                lines.append("ite %s%d %s%d %s%d" % (sa, a, sb, b, sc, c)); nreg += 1
+        for op in ("and", "xor", "or"):
+            lines.append("%s %d %d" % (op, 2, top)); nreg += 1
+            lines.append("%s %d ~%d" % (op, 2, top)); nreg += 1
+            lines.append("%s ~%d %d" % (op, 2, top)); nreg += 1
+        lines.append("gc 3 %d %d %d" % (top, 2, 3))
+        lines.append("ite 2 3 %d" % top); nreg += 1
+        lines.append("ite 2 ~3 %d" % top); nreg += 1
+        yield ("scale-bigidx-2^20", lines, {"kind": "scale", "family": "scale", "classes": {"scale:handles>=2^20": 1}, "timeout": 240})
     # (3) one hole followed by thousands of occupied cells, then new nodes
     for M in (4500, 9000):
         hole = rng.randrange(3, 40)
